@@ -1,7 +1,8 @@
 import CanVerif.Lemmas.ParseTerm
+import CanVerif.Lemmas.ParseNoPanic
 import CanVerif.Props.C12
 /-!
-# C12 (termination)  Parsing any input terminates: the loop bounds of the model are never reached
+# C12 (termination, no panic)  Parsing any input terminates with success or a positioned error
 
 Every loop of the model carries a bound ("fuel": source length + 2 for the parser's loops, characters left + 2 for the
 scanner's, one step per byte for the decoder).  Reaching a bound is an outcome of its own (`outOfFuel`; scanner loops
@@ -14,6 +15,15 @@ that returns a token other than EOF and a `Next` that returns a character decrea
 continues has consumed a token or a character, every definition consumes its keyword, and initially `μ ≤ length + 1`.
 The straight-line code between the loops is handled by the verification-condition generator of `Std.Do` (`mvcgen`)
 from the specifications of the primitives; the loops by induction on the bound.
+
+No panic (Lemmas/ScanInv.lean, ParseInv.lean, ParseNoPanic.lean): the model has one partial Go operation, `tok.txt[0]` on
+the token after a signal name; it is guarded by `tok.typ == scanner.Ident`, and an identifier token is never empty:
+the scanner's offsets stay inside the source (offset + bytes of the unread characters ≤ source size, last character
+length ≤ offset), the look-ahead character starts where the previous offset was, so the token text runs over at least
+the first identifier character.  The invariant holds initially (the decoder yields characters of total width ≤ the
+source length, each well-formed one at least a byte wide), is kept by every scanner and parser operation, and the
+look-ahead token is always well formed; the panic site is specified with precondition `False`, which the generated
+verification condition has to derive at its only call site.
 -/
 namespace CanVerif
 
@@ -39,5 +49,22 @@ theorem C12_decoder_bound (data : List UInt8) (k : Nat) :
 theorem C12_step_consumes (defFuel : Nat) (defs : Array Def) (st st' : PS) (d : Def) (hf : μ st < defFuel)
     (h : parseStep defFuel defs st = .ok (some (d, st'))) : μ st' < μ st :=
   (parseStep_progress defFuel defs st hf).2 d st' h
+
+/-- Parsing never reaches the model's run-time panic site, for every byte sequence. -/
+theorem C12_no_panic (data : List UInt8) (site : String) : parseDbc data ≠ .panic site := parseDbc_noPanic data site
+
+/-- **C12, outcome clause**: for every byte sequence, parsing terminates with success or with an error value carrying a
+reason and a position (and the definitions accepted so far); nothing else can happen. -/
+theorem C12_success_or_positioned_error (data : List UInt8) :
+    (∃ ds, parseDbc data = .ok ds) ∨ (∃ p r ds, parseDbc data = .error p r ds) := by
+  rcases C12_total_strong data with h | h | ⟨s, h⟩
+  · exact Or.inl h
+  · exact Or.inr h
+  · exact absurd h (C12_no_panic data s)
+
+/-- An identifier token of the scanner model is never empty (what guards the panic site). -/
+theorem C12_ident_token_nonempty (s s' : Sc) (t : Token) (hi : StInv s) (h : s.scan = .ok (t, s'))
+    (ht : t.typ = tokIdent) : t.txt ≠ [] :=
+  (exc_ok_of_triple _ _ _ (scan_ispec s hi) _ h).2.2 ht
 
 end CanVerif
